@@ -296,7 +296,9 @@ def _injective(chk: Check, tab: SymTab, c: Cls, base_key: str, segs: list[Seg]) 
                 continue
             names = set(d1.coef) | set(a.count.coef) | set(b.count.coef)
             hit = None
+            n_wit = 0
             for val in witnesses(tab, names):
+                n_wit += 1
                 sa_, sb_ = _concrete(a, val), _concrete(b, val)
                 common = set(sa_) & set(sb_)
                 if common:
@@ -313,6 +315,10 @@ def _injective(chk: Check, tab: SymTab, c: Cls, base_key: str, segs: list[Seg]) 
                         facts=[f"{a.label()}: first address {a.lo.show()}, count {a.count.show()} ({a.where})",
                                f"{b.label()}: first address {b.lo.show()}, count {b.count.show()} ({b.where})",
                                f"neither {d1.show()} >= 0 nor {d2.show()} >= 0 holds for all configurations"])
+            elif n_wit == 0:
+                # neither an interval argument nor a single configuration to try: an address expression this interpreter does not model
+                raise AnalysisError(f"{where}: {c.name}: whether {a.label()} and {b.label()} share a register is neither proved nor could any configuration be tried "
+                                    f"({d1.show()} / {d2.show()})")
             else:
                 chk.undecided.append(f"C04.injective {key}: disjointness neither proved nor refuted ({d1.show()} / {d2.show()})")
                 chk.ok("C04.injective", key, where, f"{a.label()} / {b.label()}: not provable by interval reasoning, no colliding configuration among the enumerated ones", nontrivial=False)
@@ -1044,6 +1050,15 @@ def retrace_intact(repo: Repo, chk: Check) -> None:
                         and any(isinstance(x, ast.Call) and callee_name(x) == "SetupOp" for x in ast.walk(m.node)):
                     chk.analysed(m.key)
                     completed = True
+                    # a half that cannot be traced holds different values on different paths (or is unknown): it is refused, never replaced by a default
+                    traced = {t_.id for a_ in ast.walk(m.node) if isinstance(a_, ast.Assign) and isinstance(a_.value, ast.Call) and callee_name(a_.value) == "infer_state_of"
+                              for t_ in a_.targets if isinstance(t_, ast.Name)}
+                    lenient = [x for x in ast.walk(m.node) if isinstance(x, ast.Call) and isinstance(x.func, ast.Attribute) and x.func.attr in ("get", "setdefault", "pop")
+                               and isinstance(x.func.value, ast.Name) and x.func.value.id in traced and len(x.args) >= 2]
+                    chk.result(not lenient, "C04.retrace-intact", f"{m.key}:no-default", f"{PASS}:{(lenient[0] if lenient else m.node).lineno}",
+                               "an operand that cannot be traced is an error",
+                               f"an operand that is not in the traced state is replaced by a default (`{ast.unparse(lenient[0])[:60] if lenient else ''}`): a half that was written with "
+                               "different values on two paths is not in the state either, and the instruction then carries the default instead of the value in effect")
     chk.result(not (traces and reverse) or completed, "C04.retrace-intact", f"{f.key}:pairs-before-erasure", f"{PASS}:{walkers[lowering].lineno}",
                "the operand pairs are completed from the traced state before any setup is erased",
                "create_pairs traces the state (infer_state_of) from inside the reverse walker that erases the setups it has lowered: for `setup(X.rs1, X.rs2); for { s2 = "
